@@ -24,7 +24,13 @@ CHECK = Check(
         "exchange x2(R/x3)^3.5, routing store, direct branch); the unit-hydrograph memory is carried as pending "
         "deliveries, proved (spec_uh_is_convolution) to be the discrete convolution with the published ordinates; "
         "tanh argument capped at 13 as in the reference implementations "
-        "(`safeguarded`), proved equal to the equations as printed whenever |P-E| <= 13 x1",
+        "(`safeguarded`), proved equal to the equations as printed whenever |P-E| <= 13 x1; "
+        "spec_run_closed_form composes the convolution into Spec.run: daily (Q, Qr, Qd) = routing recurrence "
+        "(eqs. 18-22) driven by Q9(t) = pend9[t] + sum_i UH1(t-i+1) 0.9 Pr(i), Q1(t) likewise, Pr from the "
+        "production recurrence (eqs. 1-8) alone",
+        "adapter: model.run / model.init (extractGR4JStates, packGR4JStates, row offsets, int/float64 round-trip of "
+        "n1, n2) are INSIDE the theorems: model_run_eq_packed_run, model_run_from_init, model_run_chain, and "
+        "model_eq_spec_model (the code's KModel and the specification's KModel return the same outputs and state row)",
         "theorems are over exact real arithmetic (Real.rpow, Real.tanh); floating-point round-off is covered by "
         "execution only: the KSPEC families run the specification at Float against the real Go code",
         "conditioning filter of the generators (harness models_rr.go): cases are compared only where the implementation "
@@ -35,19 +41,49 @@ CHECK = Check(
         "convolution form (harness oracle_C15.go)",
     ],
     assumptions=[
-        "x4 > 0 (documented range [0.5,4]); unit-hydrograph state vectors of the lengths chosen by initGR4J "
-        "(n1 = ceil(x4), n2 = ceil(2 x4)); any x1, x2, x3, any rainfall/PET series, any S, R, UH store contents",
-        "gr4j_code_eq_published additionally |P-E| <= 13 x1 on every day and x1 > 0",
+        "all theorems are over exact real arithmetic (alpha := R), NOT generic in Num alpha",
+        "x1 > 0, x3 > 0, x4 > 0 (documented ranges [1,1500], [1,500], [0.5,4]) in every run theorem "
+        "(gr4j_code_eq_spec, gr4j_code_eq_spec_from_init, gr4j_code_eq_published, gr4j_code_closed_form, "
+        "model_eq_spec_model). x1 > 0 and x3 > 0 were ADDED after the independent audit: the proofs do not use them "
+        "(both sides are the same real expressions for any x1, x3), but outside them the real expressions are not what "
+        "Go computes: x/0 is 0 at R and Inf/NaN in Go; (R/x3)^3.5 with a negative base is 0 at R (Real.rpow) and NaN "
+        "in Go. exchange_base_nonneg proves that with x3 > 0 and an initial routing store R >= 0 the base R/x3 is "
+        ">= 0 on every day of every run (an initial R < 0 is not excluded by the run theorems; the code clips it on "
+        "the first day but takes the power before)",
+        "unit-hydrograph state vectors of the lengths chosen by initGR4J (n1 = ceil(x4), n2 = ceil(2 x4)); any x2, any "
+        "rainfall/PET series, any S, R, UH store contents",
+        "model_run_eq_packed_run / model_run_chain: the state row is pack(st, n1, n2) with n1, n2 >= 1 and stores of "
+        "exactly these lengths (a row with n1 = 0 or shorter than 4+n1+n2 is proved to be the index panic: "
+        "model_run_rejects_malformed_row); int(float64(n)) = n is exact at R, exact at float64 for n < 2^53 "
+        "(execution); equal lengths of the rain and PET series (List.zip truncates where Go would index out of range)",
+        "gr4j_code_eq_published additionally |P-E| <= 13 x1 on every day (see partial)",
+        "spec_run_closed_form: pending vectors of the lengths ceil(x4), ceil(2 x4); x4 > 0; either tanh argument",
+    ],
+    partial=[
+        "gr4j_code_eq_published: 'code = equations exactly as printed' holds only on series with |P-E| <= 13 x1 on "
+        "every day. The code (like airGR) caps the argument of tanh at 13, the published equations do not; on a day "
+        "with |P-E| > 13 x1 the two differ in Ps / Es by at most x1 (1 - tanh 13) for a store 0 <= S <= x1 "
+        "(cap_day_gap, proved; 1 - tanh 13 = 2/(e^26+1) = 1.02e-11 is a hand calculation) and by more than 0 "
+        "(cap_hypothesis_needed, proved: the hypothesis cannot be dropped). No bound "
+        "on the propagated difference of a whole run is proved; it is measured by the KSPEC-published family "
+        "(absolute tolerance 1e-10 x scale). The unconditional theorem is gr4j_code_eq_spec (specification with the "
+        "same safeguard)",
     ],
 )
 
 META = dict(
     category="proof",
-    text="Lean 4 theorems: the code's SH1/SH2 ordinates equal the published S-curves at integer times for every "
-         "x4 > 0 and every index (Nat.ceil reasoning over the reals), the ordinate vectors lose nothing, and a run of "
-         "the kernel model equals a run of the independent specification (same runoff, Qr, Qd, S, R and "
-         "unit-hydrograph stores) for all parameters, series and initial stores; the kernel model is tied to the Go "
-         "code by differential execution, and the specification itself is executed at Float against the Go code.",
+    text="Lean 4 theorems over exact real arithmetic: the code's SH1/SH2 ordinates equal the published S-curves at "
+         "integer times for every x4 > 0 and every index (Nat.ceil reasoning over the reals), the ordinate vectors "
+         "lose nothing, and a run of the kernel model equals a run of the independent specification with the tanh "
+         "argument capped at 13 (same runoff, Qr, Qd, S, R and unit-hydrograph stores) for all x1, x3, x4 > 0, "
+         "series and initial stores; the same at the level of the adapter (model.init / model.run on packed state "
+         "rows: offsets, length cells, panics on malformed rows; the code's and the specification's KModel return "
+         "the same outputs and state row); the specification run in closed form (routing recurrence driven by the "
+         "convolutions of 0.9 Pr / 0.1 Pr with the published ordinates). PARTIAL: equality with the equations exactly "
+         "as printed (no cap) only when |P-E| <= 13 x1 on every day (difference <= 1.02e-11 x1 per day otherwise, "
+         "proved non-zero). The kernel model is tied to the Go code by differential execution, and the "
+         "specification itself is executed at Float against the Go code.",
     design_ref="DESIGN.md §6 C15",
     note="Trusted: Lean kernel + propext/Classical.choice/Quot.sound; the transcription of the paper; the "
          "correspondence generators (x4 dense in [0.5,4] + all integers/half-integers and their float neighbours, so "
